@@ -185,10 +185,15 @@ def framing(ctx, driver):
         comp = sc.make_dc_computer(L, S, centered, kaldi, taps)
         x = sc.sig(0, N)
         x.setflags(write=False)
-        got = comp.compute_full(x)
-        rows = sc.as_int_rows(got)
         case = dict(kind="framing", L=L, S=S, centered=centered, kaldi=kaldi, N=N, hot=j)
         ctx.case(case, nontrivial=N >= L // 2 + 1, kind="framing")
+        try:
+            got = comp.compute_full(x)
+        except Exception as e:
+            ctx.violation(case, "frames", "%s: %s" % (type(e).__name__, e), "compute_full raises on a valid configuration / signal",
+                          tags=dict(clause="raises", exc=type(e).__name__))
+            continue
+        rows = sc.as_int_rows(got)
         # oracle: documented count and ranges
         if N < L // 2 + 1:
             want = []
@@ -230,21 +235,25 @@ def library_oracle(ctx):
     n = ctx.scale(80, 800)
     # corner configurations that every run covers (then random ones): complex banks whose lowest filter wraps below
     # 0 Hz, and "analytic" complex banks (raised low edge) whose top filter still crosses the Nyquist frequency
-    corners = [(kind, rate, lo, hi, nf) for kind in ("gabor", "gammatone")
-               for rate, lo, hi, nf in ((8000, 0.0, 4000.0, 6), (8000, 300.0, 4000.0, 6), (11025, 200.0, 5512.5, 10),
-                                        (4000, 20.0, 2000.0, 3))]
+    # (all parameters fixed: nothing about them is left to the RNG)
+    corners = [("gabor", "mel", 8000, 0.0, 4000.0, 6), ("gammatone", "mel", 8000, 0.0, 4000.0, 6),
+               ("gabor", "mel", 8000, 500.0, 4000.0, 10), ("gabor", "bark", 4000, 500.0, 2000.0, 6),
+               ("gammatone", "mel", 4000, 1000.0, 2000.0, 6), ("gammatone", "bark", 8000, 1000.0, 4000.0, 10),
+               ("gabor", "mel", 16000, 1000.0, 8000.0, 20), ("gammatone", "bark", 4000, 500.0, 2000.0, 20)]
     for it in range(n):
         if ctx.out_of_time():
             break
+        corner = corners[it] if it < len(corners) else None
         rate = r.choice([4000, 8000, 11025])
         kind = r.choice(["gabor", "tri", "fbank", "gammatone", "tri_analytic"])
         scale = r.choice(["mel", "bark", dict(name="linear", low_hz=0.0), dict(name="octave", low_hz=30.0)])
         nf = r.choice([3, 6, 10])
-        lo = r.choice([0.0, 20.0, 200.0])
+        lo = r.choice([0.0, 20.0, 200.0, 500.0, 1000.0])
         hi = r.choice([rate / 2, rate / 2 - 100.0, rate / 4])
-        if it < len(corners):
-            kind, rate, lo, hi, nf = corners[it]
-            scale = r.choice(["mel", "bark"])
+        if hi <= lo:
+            hi = float(rate // 2)
+        if corner:
+            kind, scale, rate, lo, hi, nf = corner
         if isinstance(scale, dict) and scale.get("name") == "octave" and lo < 30.0:
             lo = 30.0
         try:
@@ -267,6 +276,9 @@ def library_oracle(ctx):
         flen = r.choice([None, 5.0, 12.5, 25.0, 3.1])
         shift = r.choice([2.0, 5.0, 10.0, 1.3])
         wname = r.choice(["hann", "hamming", "bartlett", "blackman", "gamma", None])
+        if corner:
+            flags = dict(use_log=False, use_power=it % 2 == 0, include_energy=it % 4 >= 2, pad_to_nearest_power_of_two=it % 3 == 0)
+            style, kaldi, flen, shift, wname = "centered", False, 25.0, 10.0, "hann"
         try:
             comp = compute.STFTFrameComputer(bank, frame_length_ms=flen, frame_shift_ms=shift, frame_style=style,
                                              kaldi_shift=kaldi, window_function=wname, **flags)
@@ -281,6 +293,8 @@ def library_oracle(ctx):
         N = r.choice([L // 2, L // 2 + 1, L, 2 * L + 5, r.randrange(L, 4 * L)])
         # loud, quiet and silent signals (the log floor and the energy coefficient only matter when a frame is quiet)
         level = r.choice([1.0, 1.0, 1e-2, 1e-4, 0.0])
+        if corner:
+            N, level = 2 * L + 5, 1.0
         x = np.random.RandomState(r.randrange(1 << 30)).randn(N) * level
         x.setflags(write=False)
         case = dict(kind="library", level=level, bank=kind, scale=str(scale), num_filts=nf, rate=rate, low=lo, high=hi, L=L, S=S, D=D,
